@@ -46,7 +46,7 @@ def run(tier, replay=None):
         return c.finish()
     # 1. fault machine: every single fault of four base encodings (all kinds), model-checked for format canonicity
     k, stride = (2, 24) if thorough else (1, 1)
-    r = vlib.tlc("MC_Wire", W.cfg(wd, "MC_Wire_fault.cfg", 'CONSTANTS Mode = "fault" MaxFaults = %d Stride = %d\nSPECIFICATION Spec\nINVARIANT FormatCanonical EmitFault\nVIEW View\nCHECK_DEADLOCK FALSE\n' % (k, stride)), wd, workers=8, heap="10g", timeout=3 * 3600)
+    r = vlib.tlc("MC_Wire", W.cfg(wd, "MC_Wire_fault.cfg", 'CONSTANTS Mode = "fault" MaxFaults = %d Stride = %d BigLens = {}\nSPECIFICATION Spec\nINVARIANT FormatCanonical EmitFault\nVIEW View\nCHECK_DEADLOCK FALSE\n' % (k, stride)), wd, workers=8, heap="10g", timeout=3 * 3600)
     if not r.ok: raise vlib.ToolError("fault machine design check failed: " + "\n".join(r.errors[:3]))
     c.cov["states"] = r.distinct; c.cov["transitions"] = r.generated
     out = os.path.join(wd, "MC_Wire_fault.cfg.out")
